@@ -17,7 +17,8 @@
 (***************************************************************************)
 EXTENDS Integers, Sequences, FiniteSets
 
-CONSTANTS Targets, Workers, MaxFails, MaxObjs, ProbeChecksIdentity, FailureMarksDown
+CONSTANTS Targets, Workers, MaxFails, MaxObjs, ProbeChecksIdentity, FailureMarksDown,
+          Record      \* keep the event history (FALSE for liveness checking: finite state space)
 
 VARIABLES table,    \* t -> object id of the current entry (only discovered targets)
           st,       \* object id -> [t, exploring, health, probed (a probe succeeded), est]
@@ -33,6 +34,7 @@ vars == <<table, st, nobj, queue, busy, timers, fails, hist>>
 
 Ev(k, t, x) == [ev |-> k, t |-> t, x |-> x]
 Idle == [o |-> 0, under |-> 0]
+H(e) == IF Record THEN Append(hist, e) ELSE hist
 
 Init ==
   /\ table = <<>> /\ st = <<>> /\ nobj = 0 /\ queue = <<>>
@@ -48,7 +50,7 @@ Update(S) ==
                     IF o \in DOMAIN st THEN st[o]
                     ELSE [t |-> CHOOSE t \in new : ord[t] = o, exploring |-> FALSE, health |-> "unknown", probed |-> FALSE, est |-> 0]]
         /\ nobj' = nobj + Cardinality(new)
-  /\ hist' = Append(hist, Ev("update", 0, S))
+  /\ hist' = H(Ev("update", 0, S))
   /\ UNCHANGED <<queue, busy, timers, fails>>
 
 (* the coordinator asks for the estimate: first lookup enqueues the entry *)
@@ -57,7 +59,7 @@ Get(t) ==
   /\ LET o == table[t] IN
      /\ IF st[o].exploring THEN UNCHANGED <<st, queue>>
         ELSE st' = [st EXCEPT ![o].exploring = TRUE] /\ queue' = Append(queue, o)
-     /\ hist' = Append(hist, Ev("get", t, [health |-> st[o].health, est |-> st[o].est]))
+     /\ hist' = H(Ev("get", t, [health |-> st[o].health, est |-> st[o].est]))
   /\ UNCHANGED <<table, nobj, busy, timers, fails>>
 
 (* a worker takes the next entry; it sends the probe (unless the entry is stale and the code checks) *)
@@ -67,8 +69,8 @@ Dequeue(w) ==
          t == st[o].t
          cur == IF t \in DOMAIN table THEN table[t] ELSE 0
      IN IF ProbeChecksIdentity /\ cur # o
-          THEN busy' = busy /\ hist' = Append(hist, Ev("skip-stale", t, o))
-          ELSE busy' = [busy EXCEPT ![w] = [o |-> o, under |-> cur]] /\ hist' = Append(hist, Ev("probe-start", t, o))
+          THEN busy' = busy /\ hist' = H(Ev("skip-stale", t, o))
+          ELSE busy' = [busy EXCEPT ![w] = [o |-> o, under |-> cur]] /\ hist' = H(Ev("probe-start", t, o))
   /\ queue' = Tail(queue)
   /\ UNCHANGED <<table, st, nobj, timers, fails>>
 
@@ -76,7 +78,7 @@ ProbeOK(w) ==
   /\ busy[w].o # 0
   /\ LET o == busy[w].o IN
      /\ st' = [st EXCEPT ![o].health = "up", ![o].probed = TRUE, ![o].est = 1]
-     /\ hist' = Append(hist, Ev("probe-ok", st[o].t, o))
+     /\ hist' = H(Ev("probe-ok", st[o].t, o))
   /\ busy' = [busy EXCEPT ![w] = Idle]
   /\ UNCHANGED <<table, nobj, queue, timers, fails>>
 
@@ -85,7 +87,7 @@ ProbeFail(w) ==
   /\ LET o == busy[w].o IN
      /\ st' = [st EXCEPT ![o].health = IF FailureMarksDown THEN "down" ELSE "up"]
      /\ timers' = timers \cup {o}
-     /\ hist' = Append(hist, Ev("probe-fail", st[o].t, o))
+     /\ hist' = H(Ev("probe-fail", st[o].t, o))
   /\ busy' = [busy EXCEPT ![w] = Idle] /\ fails' = fails + 1
   /\ UNCHANGED <<table, nobj, queue>>
 
@@ -96,7 +98,7 @@ TimerFire(o) ==
   /\ LET t == st[o].t
          again == IF ProbeChecksIdentity THEN t \in DOMAIN table /\ table[t] = o ELSE t \in DOMAIN table
      IN queue' = IF again THEN Append(queue, o) ELSE queue
-  /\ hist' = Append(hist, Ev("timer", st[o].t, o))
+  /\ hist' = H(Ev("timer", st[o].t, o))
   /\ UNCHANGED <<table, st, nobj, busy, fails>>
 
 Next ==
